@@ -160,6 +160,14 @@ CLAIMS['C20'] = ('other',
                  'BOUNDED only: makeevenCIJ, makefractalCIJ (reported count), makerandCIJdegreesfixed (degree sequences), and the parameter grids of all seven generators (n<=8, every k, seeds).',
                  BND_NOTE % 'C20' + ' Proved part: ' + PROOF_NOTE + ' Counting lemmas are assumed in SMT and proved in Lean (section gencount); scipy/RandomState library contracts are assumed.',
                  'pyvc + z3 + Lean-proved counting lemmas for four generators; exhaustive parameter grids (bounded) for the other three', '5/C20')
+CLAIMS['C08'] = ('exploration',
+                 'Mostly bounded. Deductive part (pyvc+z3, all binary graphs): the FORWARD PASS of betweenness_bin, as a prefix contract up to the dependency accumulation: the powers loop maintains NPd = G^d (value) with support = walks '
+                 'of d connections, L[x,y] = shortest-path length for found pairs, no walk of at most d connections for open pairs, NSP[x,y] = (G^t)[x,y] for pairs found at length t; at the end L is the shortest-path length (INF exactly when '
+                 'unreachable, 0 on the diagonal) and NSP the number of shortest paths (entry of the matrix power at that length; 1 where there is no path). The dependency accumulation (Brandes recursion in matrix form), betweenness_wei, '
+                 'edge_betweenness_bin and edge_betweenness_wei, the agreement of node vectors and the sum identities are BOUNDED only: brute-force enumeration of all shortest paths on all digraphs n<=4 / graphs n<=5/6, tie palettes. Level is '
+                 'exploration because the betweenness values themselves are never proved.',
+                 BND_NOTE % 'C08' + ' Proved part: ' + PROOF_NOTE + ' Walk lemmas and matrix-power equations assumed in SMT, proved in Lean; np.dot support contract assumed (precondition discharged).',
+                 'pyvc + z3 + walk lemmas for the forward pass of betweenness_bin; brute-force shortest-path enumeration on exhaustive small scopes (bounded) for the betweenness values', '5/C08')
 NOT_YET = 'check not built yet in this round (see DESIGN.md section 10); no claim is made'
 
 def main():
@@ -193,9 +201,9 @@ def main():
             'add_only': True,
         },
         'engines': [
-            {'name': 'pyvc', 'path': 'engine/pyvc', 'serves_properties': ['C01', 'C02', 'C03', 'C06', 'C07', 'C11', 'C12', 'C15', 'C16', 'C17', 'C20'], 'kind_free_text': 'AST -> verification conditions -> z3/cvc5 over the real source, sidecar contracts (deductive, unbounded)'},
+            {'name': 'pyvc', 'path': 'engine/pyvc', 'serves_properties': ['C01', 'C02', 'C03', 'C06', 'C07', 'C11', 'C12', 'C08', 'C15', 'C16', 'C17', 'C20'], 'kind_free_text': 'AST -> verification conditions -> z3/cvc5 over the real source, sidecar contracts (deductive, unbounded)'},
             {'name': 'pyframe', 'path': 'engine/pyframe', 'serves_properties': ['C05', 'C13'], 'kind_free_text': 'static frame (mutation/alias) and effect (RNG) obligations over the real AST'},
-            {'name': 'lean', 'path': 'engine/lean', 'serves_properties': ['C01', 'C02', 'C03', 'C04', 'C06', 'C07', 'C09', 'C10', 'C11', 'C14', 'C15', 'C18', 'C19', 'C20'], 'kind_free_text': 'Lean 4 + Mathlib: lemma library justifying every SMT axiom (VerifLemmas.lean) and numpy->Lean extraction of the real source with stored proofs (extract.py, ExtractedProofs.lean)'},
+            {'name': 'lean', 'path': 'engine/lean', 'serves_properties': ['C01', 'C02', 'C03', 'C04', 'C06', 'C07', 'C08', 'C09', 'C10', 'C11', 'C14', 'C15', 'C18', 'C19', 'C20'], 'kind_free_text': 'Lean 4 + Mathlib: lemma library justifying every SMT axiom (VerifLemmas.lean) and numpy->Lean extraction of the real source with stored proofs (extract.py, ExtractedProofs.lean)'},
             {'name': 'weave', 'path': 'engine/weave.py', 'serves_properties': sorted(CLAIMS), 'kind_free_text': 'bounded stand-in: the same contracts executed on the real functions over exhaustive small scopes with a scripted RandomState'},
         ],
         'checks': checks,
